@@ -39,13 +39,77 @@ def text_oracle(chk, res, kind):
                               "delegates under %s instead of %s: %s" % (body[1], want, r["src"]))
 
 
+# enum-level attributes whose reading under the property text is beyond doubt: (literal, argument sources) -> how the
+# attribute relates to the variants ("wrap": mentions `_variant`; "bare": is exactly one flag-free `_variant` placeholder;
+# "default": does not mention `_variant`)
+SHARED_MENU = {
+    ("{_variant}", ()): "bare", ("<{_variant}>", ()): "wrap", ("{_variant}: {}", ("1 + 1",)): "wrap",
+    ("[{}]", ("_variant",)): "wrap", ("dflt", ()): "default", ("{0}", ("_variant",)): "bare",
+    ("{x}", ("x = _variant",)): "bare", ("{}", ("_variant",)): "bare", ("{_variant }", ()): "bare",
+    ("{_variant}{_variant}", ()): "wrap", ("{}", ("1",)): "default", ("{0} {_variant}", ("_variant",)): "wrap",
+    ("{_variant:}", ()): "bare",
+}
+
+
+def enum_text_oracle(chk, res):
+    """independent reading of the property text for ENUMS (Display-like derives): which attribute governs a variant
+    (its own; the enum-level one when it mentions `_variant`, or when the variant has none; a bare `{_variant}` of the
+    derived trait changes nothing) and whether that attribute is a bare placeholder - against the shape of the real arm"""
+    letter_tr = {"": "Display", "?": "Debug", "x": "LowerHex", "X": "UpperHex", "o": "Octal", "p": "Pointer",
+                 "b": "Binary", "e": "LowerExp", "E": "UpperExp"}
+    for r in res:
+        it = r["item"]
+        if it["kind"] != "enum" or it.get("exotic"):
+            continue
+        real = C.real_display(r["resp"])
+        if real[0] != "ok":
+            continue
+        sa = it["container"].get("fmt")
+        mode = None
+        if sa is not None:
+            key = (sa["lit"], tuple(("%s = " % x["alias"] if x["alias"] else "") + x["expr"] for x in sa["args"]))
+            mode = SHARED_MENU.get(key)
+            if mode is None and "_variant" not in sa["lit"] and not any("_variant" in x["expr"] or x["alias"] == "_variant" for x in sa["args"]):
+                mode = "default"
+            if mode is None:
+                continue
+            if mode == "bare" and it["trait"] == "Display":
+                mode, sa = None, None              # as if there were no enum-level attribute
+            elif mode == "bare":
+                mode = "wrap"
+        bodies = C.real_arm_bodies(it, real[1])
+        for v, body in zip(it["variants"], bodies):
+            own = v.get("fmt")
+            gov = sa if (mode == "wrap" or (mode == "default" and own is None)) else own
+            top = body
+            while top is not None and top[0] == "match_variant":
+                top = top[2]
+            got = top is not None and top[0] == "delegate"
+            if gov is not None:
+                expected, letter = R.is_bare_per_text(gov["lit"], [(x["alias"], x["expr"]) for x in gov["args"]], None)
+                want_tr = letter_tr[letter] if expected else None
+            else:
+                expected = len(v["fields"]["list"]) == 1
+                want_tr = it["trait"]
+            chk.bump("text-oracle:enum:%s:%s" % (mode or "none", "delegate" if expected else "other"))
+            if expected != got:
+                chk.violation("delegation-decision", {"item": r["src"], "derive": it["trait"], "variant": v["name"],
+                                                      "expected_delegation": expected, "body": str(body)},
+                              "%s, variant %s: per the property text the governing attribute should %sdelegate, the expansion does%s" % (
+                                  it["trait"], v["name"], "" if expected else "not ", "" if got else " not"))
+            elif expected and top[1] != want_tr:
+                chk.violation("delegation-trait", {"item": r["src"], "variant": v["name"], "expected": want_tr, "body": str(body)},
+                              "delegates under %s instead of %s: %s" % (top[1], want_tr, r["src"]))
+
+
 def run(tier, seed, replay):
     chk = common.Check("C05", tier, seed)
-    st = common.check_proofs(chk, "C05", extra_dirs=("Fmt", "Gen"))
+    st = common.check_proofs(chk, "C05", extra_dirs=("Fmt", "Gen", "C07"))
     n = 3000 if tier == "quick" else 20000
     res, dres = C.decision_tie(chk, n, n // 2)
     text_oracle(chk, res, "display")
     text_oracle(chk, dres, "debug")
+    enum_text_oracle(chk, res)
 
     # run time: the real macro, rustc, caller's flags
     rng = chk.rng
@@ -93,7 +157,8 @@ def run(tier, seed, replay):
         chk, st,
         rule="(1) generated Display-like/Debug items (structs+enums, 0-3 fields, literals with bare/modified/multiple placeholders, "
              "positional/named/aliased/expression args, raw idents, generics): model vs real expander (body shape, bounds, diagnostics) "
-             "and an independent regex reading of the property text vs the real body shape; (2) well-typed structs and enums (with/without an enum-level format, variants with own attributes, single "
+             "and an independent regex reading of the property text vs the real body shape (structs: the attribute; enums: which "
+             "attribute governs each variant - own / wrapping / default / bare {_variant} - and whether it is a bare placeholder); (2) well-typed structs and enums (with/without an enum-level format, variants with own attributes, single "
              "fields, one variant possibly of a type parameter) compiled with the "
              "real macro: format!(\"{:<outer spec>}\", v) vs the same spec applied to the inner argument (delegating) or vs the flag-free "
              "text (inert), outer specs over fill/align/sign/#/0/width/precision; non-trivial = has a format attribute or a field; "
@@ -107,7 +172,10 @@ META = {
     "text": "Proved for all literals/argument lists: a format attribute delegates iff its literal is one modifier-free placeholder "
             "referring to its only argument (no index, index 0, matching alias) or to a binding by name, under the placeholder's "
             "trait; an out-of-range index never delegates; modifiers/text/several placeholders never delegate; the delegating body "
-            "hands the caller's formatter on and every other attribute-driven body ignores it (Layer-2 semantics). The model is "
+            "hands the caller's formatter on and every other attribute-driven body ignores it (Layer-2 semantics). For EVERY struct and "
+            "enum variant under every combination of own and enum-level attribute the body delegates exactly as the governing attribute "
+            "prescribes (own; the enum-level one when it wraps or is the default; a bare {_variant} of the derived trait counts as absent), "
+            "and every body shape is either a pass-through to that argument or independent of the caller's flags. The model is "
             "re-tied to impl/src/fmt on every run (bodies, bounds, diagnostics of ~2000 generated items) and the real macro's "
             "behaviour under caller flags is compared with plain format! at run time.",
     "note": "Trusted: Coq kernel; Fmt/Model.v tied by differential runs; the Layer-2 semantics of Trait::fmt/write! (assumed, "
